@@ -4,7 +4,7 @@ from tools import vlib, t3
 from tools.vlib import hx, unhx
 
 MODULE = "PropC13"
-THEOREMS = ["C13_code_conforms", "C13_no_parent_in_temp_path", "C13_temp_path_relative", "C13_out_lands", "C13_temp_location", "C13_in_resolves", "C13_extra_files", "C13_temp_path_is_enc", "C13_out_lands_example", "C13_noncanonical_refuted", "C13_extra_placeholder_refuted"]
+THEOREMS = ["C13_code_conforms", "C13_no_parent_in_temp_path", "C13_temp_path_relative", "C13_out_lands", "C13_temp_location", "C13_in_resolves", "C13_extra_files", "C13_temp_path_is_enc", "C13_out_lands_example", "C13_noncanonical_refuted", "C13_extra_placeholder_refuted", "C13_cone_conforms"]
 
 SEGS = ["a", "b.c", "x_y", "o-1", "a..", "..b", "__parent__", "__fsroot__", "__parent__z", "."]
 
